@@ -13,7 +13,7 @@ from ..common import Ctx, Scheme
 FAULTS = ["dup_inter_same_deps", "dup_inter_diff_deps", "dup_cross_comp", "state_param_same_value", "state_param_diff_value",
           "state_vs_inter", "param_vs_inter", "dup_deriv", "dup_state_diff_value", "dup_param_diff_value", "missing_deriv",
           "orphan_deriv", "undefined_symbol", "cycle", "self_cycle", "deriv_other_comp", "dup_inter_comment_differs",
-          "state_param_same_value_cross_comp", "dup_deriv_two_tags", "undeclared_parameter", "dup_inter_two_tags"]
+          "state_param_same_value_cross_comp", "dup_deriv_two_tags", "undeclared_parameter", "dup_inter_two_tags", "undefined_symbol_inert"]
 
 
 def blocks_text(blocks, header=None):
@@ -152,6 +152,17 @@ def inject(rng: random.Random, m: gen.GModel, kind: str):
                 b[2][:] = [ln + " + zz_undefined" if ln.startswith(f"{n} = ") and "#" not in ln else ln for ln in b[2]]
         text = blocks_text(blocks)
         return (text, f"{n} references the undefined symbol zz_undefined") if "zz_undefined" in text else None
+    if kind == "undefined_symbol_inert":
+        # the undefined name sits where no evaluation ever needs it: the dead branch of a condition that is decided when the
+        # expression is built (a literal, a reflexive or a sign-definite comparison), a term that cancels, a zero product
+        s = rng.choice(states)
+        form = rng.choice(["Conditional(Gt(2, 1), {s}, zz_undefined)", "Conditional(Eq({s}, {s}), 1, zz_undefined)",
+                           "Conditional(Ge({s}**2, 0), {s}, zz_undefined*2)", "Conditional(Lt(1, 0), zz_undefined, {s})",
+                           "{s} + zz_undefined - zz_undefined", "0*zz_undefined + {s}", "zz_undefined**0 + {s}",
+                           "Conditional(Lt({s}, {s}), zz_undefined + 1, 3)"]).format(s=s)
+        c = rng.choice(m.comps)
+        blocks[expr_block(c)][2].append(f"inert_q = {form}")
+        return blocks_text(blocks), f"inert_q = {form}: zz_undefined is not defined anywhere"
     if kind == "cycle":
         s = rng.choice(states)
         d = m.deriv_of(s)
